@@ -33,6 +33,7 @@ def jobs(tier, seed):
     js.append({"sub": "dag", "chunk": 1, "of": n, "n": b["dag_nodes"], "cap": b["subset_cap"],
                "hashseed": 1 + seed % 1000, "primary": False})
     js += [{"sub": "history", "chunk": i, "of": 8, "depth": 1 if tier == "quick" else 2} for i in range(8)]
+    js += [{"sub": "deep", "depths": [d]} for d in ((3, 60, 1100, 2600) if tier == "quick" else (3, 60, 400, 1100, 2600, 6000))]
     return js
 
 
@@ -426,9 +427,90 @@ def run_history(job, acc):
             break
 
 
+def deep_circuit(shape, D):
+    """chain : a -> n1 -> ... -> nD (inverters).   ladder : p_i = not(p_{i-1}), q_i = and(q_{i-1}, p_{i-1}); p_0 = a, q_0 = b."""
+    import circuitgraph as cg
+
+    c = cg.Circuit("deep")
+    c.add("a", "input")
+    if shape == "chain":
+        prev = "a"
+        for i in range(1, D + 1):
+            prev = c.add(f"n{i}", "not", fanin=prev)
+        c.set_output(prev)
+        return c
+    c.add("b", "input")
+    p, q = "a", "b"
+    for i in range(1, D + 1):
+        p2 = c.add(f"p{i}", "not", fanin=p)
+        q = c.add(f"q{i}", "and", fanin=[q, p])
+        p = p2
+    c.set_output([p, q])
+    return c
+
+
+def check_deep(acc, shape, D):
+    """Queries on circuits much deeper than they are wide (depth D up to several thousand): the expected answers
+    are known in closed form, so no recursive reference is involved."""
+    import circuitgraph as cg
+
+    case = {"kind": "deep", "shape": shape, "depth": D}
+    site = "deep"
+    c = deep_circuit(shape, D)
+    top, mid = (f"n{D}", f"n{D // 2}") if shape == "chain" else (f"q{D}", f"q{D // 2}")
+    qs = [("is_cyclic", lambda: c.is_cyclic(), False, None),
+          ("fanin_depth", lambda: c.fanin_depth(top), D, top),
+          ("fanin_depth", lambda: c.fanin_depth(mid), D // 2, mid),
+          ("fanout_depth", lambda: c.fanout_depth("a"), D, "a"),
+          ("fanin_depth-list", lambda: c.fanin_depth([top, mid]), D, [top, mid]),
+          ("transitive_fanin", lambda: len(c.transitive_fanin(top)), D if shape == "chain" else 2 * D, top),
+          ("transitive_fanout", lambda: len(c.transitive_fanout("a")), D if shape == "chain" else 2 * D, "a"),
+          ("startpoints", lambda: set(c.startpoints(top)), {"a"} if shape == "chain" else {"a", "b"}, top)]
+    for what, fn, want, arg in qs:
+        ok, got = call(acc, site, what, fn, case, arg)
+        if ok:
+            cmp(acc, site, what, got, want, case, arg)
+    ok, lv = call(acc, site, "levelize", lambda: cg.props.levelize(c), case)
+    if ok:
+        if shape == "chain":
+            want = {"a": 0, **{f"n{i}": i for i in range(1, D + 1)}}
+        else:
+            want = {"a": 0, "b": 0, **{f"p{i}": i for i in range(1, D + 1)}, **{f"q{i}": i for i in range(1, D + 1)}}
+        cmp(acc, site, "levelize", dict(lv), want, case)
+    ok, order = call(acc, site, "topo_sort", lambda: list(c.topo_sort()), case)
+    if ok:
+        pos = {n: i for i, n in enumerate(order)}
+        good = len(pos) == len(c.graph) and all(pos[u] < pos[v] for u, v in c.graph.edges)
+        cmp(acc, site, "topo_sort", good, True, case)
+    ok, rc = call(acc, site, "reconvergent_fanout_nodes", lambda: set(c.reconvergent_fanout_nodes()), case)
+    if ok:
+        # ladder: p_{i} feeds p_{i+1} and q_{i+1}, which meet again in q_{i+2}
+        want = set() if shape == "chain" else ({"a"} | {f"p{i}" for i in range(1, D - 1)} if D >= 2 else set())
+        cmp(acc, site, "reconvergent_fanout_nodes", rc, want, case)
+    if shape == "chain":
+        ok, cuts = call(acc, site, "kcuts", lambda: [frozenset(x) for x in c.kcuts(top, 1)], case, top)
+        if ok:
+            want = {frozenset(["a"])} | {frozenset([f"n{i}"]) for i in range(1, D + 1)}
+            cmp(acc, site, "kcuts", set(cuts), want, case, top)
+    acc.outcome("deep-ok")
+
+
+def run_deep(job, acc):
+    for shape in ("chain", "ladder"):
+        for D in job["depths"]:
+            acc.states += 1
+            acc.nontrivial += 1
+            check_deep(acc, shape, D)
+    acc.sample({"shapes": ["chain", "ladder"], "depths": job["depths"]})
+    acc.observe(job["depths"])
+
+
 def run(job):
     common.setup_paths()
     acc = Acc(job)
+    if job["sub"] == "deep":
+        run_deep(job, acc)
+        return acc.result()
     if job["sub"] == "history":
         run_history(job, acc)
         return acc.result()
@@ -450,6 +532,8 @@ def replay(case, job):
         for op in case["ops"]:
             mutate(c, op, kids)
         check_any(acc, c, base)
+    elif case["kind"] == "deep":
+        check_deep(acc, case["shape"], case["depth"])
     elif case["kind"] == "dag":
         c = space.build(case["desc"])
         check_dag(acc, c, case, 6)
